@@ -275,13 +275,13 @@ Proof.
 Qed.
 
 (* ---------- the header ---------- *)
-Theorem rule_header_rt ts ds os :
+Theorem rule_words_rt ts ds os :
   ts <> [] -> forallb tname_ok ts = true -> forallb dname_ok ds = true -> forallb oname_ok os = true ->
-  parse_rule_header (header_text us ts ds os) = Some (ts, ds, os).
+  parse_rule_words (header_text us ts ds os) = Some (ts, ds, os).
 Proof.
   intros Hne Ht Hd Hoo. destruct (oo_words os Hoo) as (Wo & No & Ho). destruct (target_words ts Ht) as (Wt & St & Nt).
   destruct (dep_words ds Hd) as (_ & Sd & _).
-  unfold parse_rule_header, header_text.
+  unfold parse_rule_words, header_text.
   set (T := join_sp (map (tesc us) ts)). set (D := join_sp (map (desc us) ds)). set (O := join_sp (map (desc us) os)).
   set (D' := match ds with [] => [] | _ => c_sp :: D end).
   set (O' := match os with [] => [] | _ => c_sp :: c_pipe :: c_sp :: O end).
@@ -317,6 +317,15 @@ Proof.
     { pose proof (read_part read_oo (o0 :: os0) _ Wo No [c_sp] [] (or_intror eq_refl) (or_introl eq_refl)) as R.
       rewrite app_nil_r in R. exact R. }
     rewrite RD1, RO. reflexivity.
+Qed.
+
+(* with the archive-member reading of GNU Make: the three lists must not contain an archive reference or group *)
+Theorem rule_header_rt ts ds os :
+  ts <> [] -> forallb tname_ok ts = true -> forallb dname_ok ds = true -> forallb oname_ok os = true ->
+  ar_free ts = true -> ar_free ds = true -> ar_free os = true ->
+  parse_rule_header (header_text us ts ds os) = Some (ts, ds, os).
+Proof.
+  intros Hne Ht Hd Hoo A1 A2 A3. unfold parse_rule_header. rewrite (rule_words_rt ts ds os Hne Ht Hd Hoo), A1, A2, A3. reflexivity.
 Qed.
 End Names.
 
